@@ -18,6 +18,9 @@ RULE = (
     "element verdict == ref6(document) per value; non-trivial = tree has a class or a property and "
     "the values include both verdicts; distinct = distinct canon(case)"
 )
+RULE += (
+    ' Parsed-mode schemas go through the documented loader a quarter of the time.'
+)
 ASSUMPTIONS = [
     "oracle for the serialised document = vlib/ref6.py with the documented deviations",
     "definition keys never name a *different* element than the reachable class of that name (ambiguous caller input)",
@@ -44,7 +47,8 @@ def cases(draw, ctx):
     if draw(st.integers(0, 3)) == 0:
         schema = draw(sg.schemas(sg.Cfg(depth=3)))
         values = draw(values_for(schema, 4, 7))
-        return {"mode": "parsed", "schema": schema, "values": values}
+        return {"mode": "parsed", "schema": schema, "values": values,
+                "pipeline": draw(st.sampled_from(observe.PIPELINES))}
     gen = R._Gen()
     cfg = R.RCfg(depth=depth)
     recipe = draw(R.recipes(cfg, _gen=gen))
@@ -98,7 +102,7 @@ def refs_of(doc, acc=None, in_literal=False):
 def build_case(case):
     """-> (elements, definitions or None)."""
     if case["mode"] == "parsed":
-        parsed = observe.safe_parse(case["schema"])
+        parsed = observe.safe_parse(case["schema"], case.get("pipeline"))
         if parsed[0] != "ok":
             return None, None, parsed
         return [parsed[1]], None, None
